@@ -207,7 +207,7 @@ int ops_misc(char **args, int na)
 		if (!ok) { free(out); puts("fail"); return 0; }
 		printf("stored "); puthex(stdout, out, on); putchar('\n'); free(out); return 0;
 	}
-	if (!strcmp(op, "wa.file") && na >= 2) {
+	if ((!strcmp(op, "wa.file") || !strcmp(op, "wa.gen")) && na >= 2) {
 		/* write a table (compression none) with write(2) outcomes taken from a script, in a child process.
 		 * reply: ok file=<hex> calls=<sizes> | abort file=<hex of what reached the descriptor> calls=<sizes> */
 		int i = 1; char **kvs = args + 1; int nkv = 0;
@@ -251,6 +251,19 @@ int ops_misc(char **args, int na)
 				if (unhex(args[j], &k, &kl) || unhex(args[j + 1], &v, &vl)) _exit(3);
 				if (mtbl_writer_add(w, k, kl, v, vl) != mtbl_res_success) _exit(4);
 			}
+			/* gen=<n>x<vlen>: n generated entries with values of vlen pseudo-random bytes (megabytes of output without
+			   carrying them over the line protocol) */
+			const char *gen = kv(kvs, nkv, "gen");
+			if (gen) {
+				long gn = atol(gen); const char *x = strchr(gen, 'x'); long gv = x ? atol(x + 1) : 100;
+				uint8_t *v = malloc((size_t)gv + 1); uint64_t r = 0x9E3779B97F4A7C15ull;
+				for (long e = 0; e < gn; e++) {
+					char kb[24]; int kl = snprintf(kb, sizeof kb, "g%07ld", e);
+					for (long b = 0; b < gv; b++) { r ^= r << 13; r ^= r >> 7; r ^= r << 17; v[b] = (uint8_t)r; }
+					if (mtbl_writer_add(w, (uint8_t *)kb, (size_t)kl, v, (size_t)gv) != mtbl_res_success) _exit(4);
+				}
+				free(v);
+			}
 			mtbl_writer_destroy(&w);
 			vf_write_armed = 0;
 			if (tp) mtbl_threadpool_destroy(&tp);
@@ -265,8 +278,15 @@ int ops_misc(char **args, int na)
 		const char *tag = (WIFEXITED(st) && WEXITSTATUS(st) == 10) ? "ok" :
 				  (WIFSIGNALED(st) && WTERMSIG(st) == SIGABRT) ? "abort" :
 				  (WIFEXITED(st) && WEXITSTATUS(st) == 99) ? "asan" : "died";
+		if (kv(kvs, nkv, "gen")) {
+			/* large file: FNV-1a 64 of the bytes instead of the bytes, and the number of write calls instead of their sizes */
+			uint64_t h = 1469598103934665603ull; for (size_t q = 0; f && q < n; q++) { h ^= f[q]; h *= 1099511628211ull; }
+			long ncalls = 0; for (size_t q = 0; cf && q < cn; q++) if (cf[q] == ',') ncalls++;
+			printf("%s file=#%016llx len=%zu ncalls=%ld\n", tag, (unsigned long long)h, f ? n : 0, cn ? ncalls + 1 : 0);
+		} else {
 		printf("%s file=", tag); puthex(stdout, f ? f : (uint8_t *)"", f ? n : 0);
 		printf(" calls=%.*s\n", (int)cn, cf ? (char *)cf : "");
+		}
 		free(f); free(cf); unlink(path); unlink(cpath);
 		return 0;
 	}
